@@ -1,6 +1,7 @@
 import WhVerif.Util.Proto
 import WhVerif.Model.C13
 import WhVerif.Model.C13Bridge
+import WhVerif.Model.C13Text
 import WhVerif.Spec.C13Edit
 import WhVerif.Model.C04Json
 namespace WhVerif.Driver.C13
@@ -87,5 +88,15 @@ def handle (op : String) (j : Json) : Option Json :=
     match (getList? j "a").bind (·.mapM parseRecord), (getList? j "b").bind (·.mapM parseRecord) with
     | some a, some b => some (Json.mkObj [("edit", Json.bool (editB a b)), ("same", Json.bool (decide (unphase b = unphase a)))])
     | _, _ => some badInput
+  else if op == "c13.line" then
+    -- `{lines: [data line text]}` → per line the text after unphase, the record it parses to (null: a GT token outside the
+    -- grammar) and the record the OUTPUT text parses to
+    match (getList? j "lines").bind (·.mapM asStr?) with
+    | some ls =>
+      let recJ := fun (l : List Char) => match Text.parseLine l with | some r => recordJson r | none => Json.null
+      some (Json.mkObj [("out", ofList (fun l => Json.str (Text.unphaseLine l)) ls),
+                        ("rec", ofList (fun l => recJ l.toList) ls),
+                        ("rec_out", ofList (fun l => recJ (Text.unphaseLineText l.toList)) ls)])
+    | none => some badInput
   else none
 end WhVerif.Driver.C13
